@@ -35,3 +35,4 @@ def run(prog, rep):
     _rs.run_namebuf(prog, rep)
     _rio4.run_roles(prog, rep)
     _rs.run_bound_belief(prog, rep)
+    _rio4.run_calibration(prog, rep)
